@@ -33,13 +33,96 @@ META = {
 }
 
 
-def decorate(beh, bid):
+GOROUTINES = (1, 2, 3, 4, 10)
+
+
+def decorate(beh, bid, rng):
+    """a simulated behaviour as a stimulus; the per-behaviour configuration is what TLC chose in Init (cache on/off,
+    entries per segment) plus parameters the specification does not depend on, so they must not matter: the
+    number of goroutines a compaction scans the keys with"""
     cache_on = core.tlaval.state_var(beh[0]['body'], 'cacheOn')
+    seg_cap = core.tlaval.state_var(beh[0]['body'], 'segCap')
     steps = []
     for st in beh[1:]:
         a = dict(st['last'])
         steps.append(a)
-    return {'id': bid, 'cfg': {'cap': 2, 'segCap': 2, 'cacheOn': bool(cache_on)}, 'steps': steps}
+    return {'id': bid, 'cfg': {'cap': 2, 'segCap': int(seg_cap), 'cacheOn': bool(cache_on), 'g': rng.choice(GOROUTINES)},
+            'steps': steps}
+
+
+def situations(beh, b):
+    """situation features of a simulated behaviour, computed from TLC's states: which layout of the cursors log a
+    cache-miss fetch scans (where the HW lies, whether that segment was compacted and how, where the key is found,
+    clean window open) and what a clean finds (segments vs scanning goroutines, something to remove)"""
+    sv = core.tlaval.state_var
+    feats = set()
+    paused_before, stale_keys, hands = False, set(), 0
+    for i, st in enumerate(b['steps']):
+        pre = beh[i]['body']
+        a = st['a']
+        if a == 'Pause':
+            paused_before = True
+        if a == 'Handover':
+            # what the server that takes over still has in its cache from an earlier term
+            cur = sv(pre, 'cur')
+            stale_keys = {e['key'] for e in (sv(pre, 'ocache') or []) if cur[e['key']] != e['val']}
+            hands += 1
+            feats.add(('handover', min(hands, 3), 'stale' if stale_keys else 'fresh', 'paused-before' if paused_before else '-',
+                       'cache' if b['cfg']['cacheOn'] else 'nocache'))
+        if a == 'Set':
+            stale_keys.discard(st['k'])
+        if a in ('Fetch', 'FetchBegin') and hands:
+            feats.add(('fetch-after-handover', 'stale-key' if st['k'] in stale_keys else '-',
+                       'paused-before' if paused_before else '-', 'cache' if b['cfg']['cacheOn'] else 'nocache'))
+        if a == 'FetchOther':
+            feats.add(('fetch-other', min(hands, 2)))
+        if a in ('Fetch', 'FetchBegin'):
+            cache = sv(pre, 'cache') or []
+            if b['cfg']['cacheOn'] and any(e['key'] == st['k'] for e in cache):
+                continue
+            clog, segs, hw = sv(pre, 'clog') or [], sv(pre, 'segs'), sv(pre, 'hw')
+            cln, paused = sv(pre, 'cln'), sv(pre, 'paused')
+            if hw < 0:
+                feats.add(('scan', 'empty'))
+                continue
+            si = max(j for j in range(len(segs)) if segs[j] <= hw)
+            lo, hi = segs[si], (segs[si + 1] if si + 1 < len(segs) else 1 << 30)
+            offs = [e['off'] for e in clog if lo <= e['off'] < hi and e['off'] <= hw]
+            holes = len(offs) < hw - lo + 1
+            shape = 'dense' if not holes else ('head' if lo in offs else 'nohead')
+            where = [e['off'] for e in clog if e['key'] == st['k'] and e['off'] <= hw]
+            found = 'none' if not where else ('same' if max(where) >= lo else 'below')
+            feats.add(('scan', 'active' if si == len(segs) - 1 else 'sealed', shape, found,
+                       'window' if cln['on'] else '-', 'paused' if paused else '-'))
+        elif a in ('Clean', 'CleanBegin'):
+            segs, g = sv(pre, 'segs'), b['cfg']['g']
+            n = len(segs)
+            feats.add(('clean', 'more' if n > g else 'fewer', n % g if n > g else 0))
+        elif a == 'Roll':
+            feats.add(('roll', 'window' if sv(pre, 'cln')['on'] else '-'))
+    return feats
+
+
+def select(pool, sims, budget, per_feature, rng):
+    """the subset of the simulated pool that is replayed: every situation feature `per_feature` times (greedy, in
+    pool order), filled up to the budget in pool order"""
+    count, chosen, rest, feats_of = {}, [], [], {}
+    for beh, b in zip(sims, pool):
+        fs = situations(beh, b)
+        feats_of[b['id']] = fs
+        if any(count.get(f, 0) < per_feature for f in fs):
+            chosen.append(b)
+            for f in fs:
+                count[f] = count.get(f, 0) + 1
+        else:
+            rest.append(b)
+    chosen += rest[:max(0, budget - len(chosen))]
+    chosen.sort(key=lambda b: b['id'])
+    covered = {}
+    for b in chosen:
+        for f in feats_of[b['id']]:
+            covered[f] = covered.get(f, 0) + 1
+    return chosen, covered
 
 
 def limit_restarts(behaviours, keep):
@@ -85,18 +168,38 @@ def nontrivial(b):
         (overlap(b) or any(a in ('Clean', 'CleanBegin', 'SetFail', 'Pause', 'Restart') for a in acts))
 
 
-def execute(behaviours, d, timeout=2400):
-    stim = os.path.join(d, 'stim.json')
-    trace = os.path.join(d, 'trace.ndjson')
+def go_test(env_extra, d, timeout):
+    """core.go_test for package server with one more file in the overlay: a harness-only export in package
+    commitlog (the split check of the cleaner loop, which package server cannot reach otherwise)"""
+    import json
+    ov = core.make_overlay(d, 'server', ['c11'])
+    with open(ov) as fh:
+        rep = json.load(fh)
+    rep['Replace'][os.path.join(core.REPO, 'server', 'commitlog', 'zz_c11_export_verif.go')] = \
+        os.path.join(core.HARNESS, 'server', 'c11', 'export', 'commitlog_tick.go')
+    with open(ov, 'w') as fh:
+        json.dump(rep, fh)
+    env = core.go_env()
+    tmp = os.path.join(d, 'tmp')
+    os.makedirs(tmp, exist_ok=True)
+    env['TMPDIR'] = tmp
+    env.update(env_extra)
+    cmd = ['go', 'test', '-tags', 'verif', '-overlay', ov, '-vet=off', '-count=1', '-timeout', '%ds' % timeout,
+           '-run', '^TestVerifCursors$', './server']
+    return core._run(cmd, core.REPO, env, timeout + 60)
+
+
+def execute(behaviours, d, timeout=900, servers=1):
+    stim = os.path.join(d, 'stim%d.json' % servers)
+    trace = os.path.join(d, 'trace%d.ndjson' % servers)
     core.write_json(stim, {'behaviours': behaviours})
-    rc, out, wall = core.go_test('server', '^TestVerifCursors$',
-                                 {'VERIF_STIMULI': stim, 'VERIF_TRACE_OUT': trace}, timeout=timeout, subs=['c11'])
+    rc, out, wall = go_test({'VERIF_STIMULI': stim, 'VERIF_TRACE_OUT': trace, 'VERIF_C11_SERVERS': str(servers)}, d, timeout)
     if rc != 0 or not os.path.exists(trace):
         raise core.Inconclusive('harness failed rc=%s: %s' % (rc, out[-3000:]))
     return trace
 
 
-def judge(rep, behaviours, trace):
+def judge(rep, behaviours, trace, servers=1):
     events = core.read_ndjson(trace)
     for e in events:
         if e['a'] == 'Pause' and e['obs']['err'] != '':
@@ -125,37 +228,69 @@ def judge(rep, behaviours, trace):
                 inside = False
         cls = 'cleaning' if inside else ('overlap' if overlap(b) else 'seq')
         what = 'err=' + ev['obs']['err'] if ev['obs']['err'] not in ('', 'done', 'pending') else 'value'
+        if servers > 1 and any(s['a'] == 'Handover' for s in b['steps'][:idx]):
+            cls = 'handover' if cls == 'seq' else cls
         sig = 'C11|%s|%s|%s|%s' % (name, action, cls, what)
         if (tid, sig) in seen:
             continue
         seen.add((tid, sig))
         # replay = the behaviour up to and including the failing step
         rep.classify(sig, 'failing step: line %d %s args %s returned %s' % (line, action, ev['args'], ev['obs']),
-                     {'behaviours': [dict(b, steps=b['steps'][:idx + 1])]})
+                     {'behaviours': [dict(b, steps=b['steps'][:idx + 1])], 'servers': servers})
     return res
 
 
 def run(rep, tier, seed, replay):
     if replay:
         behaviours = replay['replay']['behaviours']
+        servers = replay['replay'].get('servers', 1)
         with core.scratch('c11') as d:
-            trace = execute(behaviours, d)
-            judge(rep, behaviours, trace)
+            trace = execute(behaviours, d, servers=servers)
+            judge(rep, behaviours, trace, servers)
         rep.cov['rule'] = 'replay of a saved stimulus'
         rep.cov['samples'] = behaviours[:1]
         return
-    res = core.tlc_check('MC_Cursors.tla', 'MC_Cursors.cfg' if tier == 'quick' else 'MC_Cursors_thorough.cfg',
-                         timeout=3000, coverage=(tier == 'thorough'))
-    rep.add_design('MC_Cursors', res)
-    num = 260 if tier == 'quick' else 4000
-    sims = core.tlc_simulate('MC_Cursors.tla', 'Sim_Cursors.cfg', num, 16, seed)
-    behaviours = [decorate(b, i + 1) for i, b in enumerate(sims) if len(b) > 1]
+    if not os.environ.get('VERIF_C11_NODESIGN'):       # (development only: skip the design check)
+        res = core.tlc_check('MC_Cursors.tla', 'MC_Cursors.cfg' if tier == 'quick' else 'MC_Cursors_thorough.cfg',
+                             timeout=3000, coverage=(tier == 'thorough'))
+        rep.add_design('MC_Cursors', res)
+    num, budget = (1200, 280) if tier == 'quick' else (8000, 4000)
+    # pool: free random walks plus the phase-scheduled family (writes, then a clean, then anything)
+    free = [b for b in core.tlc_simulate('MC_Cursors.tla', 'Sim_Cursors.cfg', num, 16, seed) if len(b) > 1]
+    fam = [b for b in core.tlc_simulate('MC_Cursors.tla', 'Sim_Cursors_fam.cfg', num, 16, seed) if len(b) > 6]
+    sims = [b for pair in zip(free, fam) for b in pair] + free[len(fam):] + fam[len(free):]
+    rng = random.Random(seed)
+    pool = [decorate(b, i + 1, rng) for i, b in enumerate(sims)]
+    behaviours, covered = select(pool, sims, budget, 3, rng)
+    rep.cov['situations_covered'] = len(covered)
+    rep.cov['situations'] = {' '.join(str(x) for x in f): n for f, n in sorted(covered.items(), key=str)}
     behaviours = limit_restarts(behaviours, 10 if tier == 'quick' else 150)
     with core.scratch('c11') as d:
-        trace = execute(behaviours, d)
+        trace = execute(behaviours, d, timeout=900 if tier == 'quick' else 2700)
         tr = judge(rep, behaviours, trace)
+    # two servers replicating the cursors partition: leader changes between live servers
+    if not os.environ.get('VERIF_C11_NODESIGN'):
+        res = core.tlc_check('MC_Cursors.tla', 'MC_Cursors_two.cfg', timeout=1500, coverage=(tier == 'thorough'))
+        rep.add_design('MC_Cursors_two', res)
+    num2, budget2 = (500, 90) if tier == 'quick' else (3000, 1000)
+    free2 = [b for b in core.tlc_simulate('MC_Cursors.tla', 'Sim_Cursors_two.cfg', num2, 16, seed) if len(b) > 1]
+    fam2 = [b for b in core.tlc_simulate('MC_Cursors.tla', 'Sim_Cursors_hand.cfg', num2, 16, seed) if len(b) > 7]
+    sims2 = [b for pair in zip(free2, fam2) for b in pair] + free2[len(fam2):] + fam2[len(free2):]
+    pool2 = [decorate(b, 100001 + i, rng) for i, b in enumerate(sims2)]
+    pool2 = [b for b in pool2 if any(s['a'] == 'Handover' for s in b['steps'])]
+    ids2 = {b['id'] for b in pool2}
+    sims2 = [s_ for i, s_ in enumerate(sims2) if 100001 + i in ids2]
+    behaviours2, covered2 = select(pool2, sims2, budget2, 3, rng)
+    with core.scratch('c11') as d:
+        trace2 = execute(behaviours2, d, timeout=900 if tier == 'quick' else 2700, servers=2)
+        tr2 = judge(rep, behaviours2, trace2, 2)
+    rep.cov['situations'].update({' '.join(str(x) for x in f): n for f, n in sorted(covered2.items(), key=str)})
+    rep.cov['situations_covered'] = len(rep.cov['situations'])
+    rep.cov['two_server_behaviours'] = len(behaviours2)
+    rep.cov['leader_changes'] = sum(1 for b in behaviours2 for s in b['steps'] if s['a'] == 'Handover')
+    behaviours = behaviours + behaviours2
     rep.cov['traces_validated_against_impl'] = len(behaviours)
-    rep.cov['trace_lines_validated'] = tr['validated']
+    rep.cov['trace_lines_validated'] = tr['validated'] + tr2['validated']
     rep.cov['evaluations'] = len(behaviours)
     rep.cov['distinct_nontrivial'] = len({core.sha([b['cfg'], b['steps']]) for b in behaviours if nontrivial(b)})
     rep.cov['overlapping_histories'] = len({core.sha(b['steps']) for b in behaviours if overlap(b)})
